@@ -1,3 +1,4 @@
 import ArroyProofs.AuditCmd
 import ArroyProofs.Properties.C05
+import ArroyProofs.Properties.C05Build
 #audit Arroy.C05
